@@ -256,8 +256,9 @@ def run_refine(case: dict) -> dict:
 
 
 def effective_levels(case: dict, rec: dict):
-    vmin = case["vmin"] if case["vmin"] is not None else rec["dmin"]
-    vmax = case["vmax"] if case["vmax"] is not None else rec["dmax"]
+    """given levels, else min / max of the image over the fit region, else (empty region) the defaults 0 / 1"""
+    vmin = case["vmin"] if case["vmin"] is not None else (rec["dmin"] if rec["dmin"] is not None else 0.0)
+    vmax = case["vmax"] if case["vmax"] is not None else (rec["dmax"] if rec["dmax"] is not None else 1.0)
     return vmin, vmax
 
 
@@ -391,7 +392,7 @@ def gen_truth(rng: random.Random, gs: dict, cls: str, modes: int, resolvable: bo
 
 
 def gen_candidate(rng: random.Random, gs: dict, truth: dict, cls: str, modes: int, across: bool = True,
-                  off_locus: bool = True) -> dict:
+                  off_locus: bool = True, tiny: bool = True) -> dict:
     """the truth moved by up to a cell, radius / width off by up to 20 %, possibly written with a position outside the
     box on periodic axes; classes without width / with unset width exercise promotion and the default width"""
     hs = spacing(gs)
@@ -413,6 +414,8 @@ def gen_candidate(rng: random.Random, gs: dict, truth: dict, cls: str, modes: in
         for i in grid_constraints(gs):
             pos[i] = rng.choice([-1, 1]) * rng.uniform(0.05, 0.8) * hs[0]
     radius = max(truth["radius"] * rng.uniform(0.8, 1.2), 0.5 * max(hs))
+    if tiny and rng.random() < 0.04:
+        radius = 0.2 * min(hs)   # usually covers no cell centre: the fit region is empty (F23, fixed)
     ds = {"cls": cls, "position": pos, "radius": radius}
     if cls != "SphericalDroplet":
         w = truth.get("width") or (sum(hs) / len(hs))
@@ -736,8 +739,7 @@ def finding_conditions(case: dict, rec: dict) -> list:
     conds = []
     gs = case["grid"]
     auto = case["vmin"] is None or case["vmax"] is None
-    empty = rec.get("region") is not None and not rec["region"].any()
-    if case["adjust"] and rec.get("dmin") is not None:
+    if case["adjust"] and rec.get("region") is not None:
         vmin, vmax = effective_levels(case, rec)
         if vmin >= vmax:
             conds.append("adjust_values and vmin_eff >= vmax_eff")
@@ -748,8 +750,6 @@ def finding_conditions(case: dict, rec: dict) -> list:
         call = rec["calls"][0] if rec.get("calls") else None
         if call is not None and "x" in call and not (z0 <= float(call["x"][0]) < z1):
             conds.append("fitted centre outside [z0,z1)")   # x[0]: the only free coordinate on a cylinder is z
-    if empty and auto:
-        conds.append("fit region empty and vmin or vmax None")
     if auto and not case["adjust"]:
         conds.append("vmin or vmax None and adjust_values False")
     return conds
